@@ -420,7 +420,7 @@ def state_task(task):
                 rec("L(%d/%d)" % (L["p"], L["q"]), tagged(loxodromic_obligations(H, neg(C), n, L["attr"], L["rep"], tol * lam)))
             conj[(L["p"], L["q"])] = C
             members["L"].append((C, None))
-            count("loxodromic(far conjugator)" if far else "loxodromic")
+            count(("loxodromic(word conjugator)" if obs["far"][0] == 0 else "loxodromic(far conjugator)") if far else "loxodromic")
         for k, P in ([] if far else lib["para"].items()):
             C = g @ P @ gi
             members["P"].append((C, None))
@@ -503,7 +503,43 @@ def key_of(s):
     return (json.dumps(s["g"]), s["kind"], s["len"])
 
 
-def walk_fix(run, n, r, pool, label):
+def big_composite(run, n, tasks, hists, label):
+    """all conjugators of a run as ONE composite isometry G: the composite G @ L @ G.inv() (library broadcasting) must
+    report, member by member, the exact ordered endpoints of the spec"""
+    H = hc.H()
+    if not tasks:
+        return
+    G = H.Isometry(np.array([t["matrix"] for t in tasks]))
+    size = np.array([max(1.0, float(np.abs(t["matrix"]).max())) for t in tasks])
+    for L0 in tasks[0]["obs"]["lox"]:
+        p, q = L0["p"], L0["q"]
+        key = "fix:n=%d:%s:composite-of-all:L(%d/%d)" % (n, label, p, q)
+        run.case(key=key, action="composite of all conjugates")
+        try:
+            C = G @ lox_of(n, p, q) @ G.inv()
+            pair = real_array(C.fixed_point_pair().proj_data, "composite pair")
+            fp = real_array(C.fixed_point().proj_data, "composite fixed point")
+            if pair.shape != (len(tasks), 2, n + 1) or fp.shape != (len(tasks), n + 1):
+                run.violation(key, "composite.shape", dict(n=n, shapes=[list(pair.shape), list(fp.shape)]))
+                continue
+            nbad = 0
+            for i, t in enumerate(tasks):
+                e = [x for x in t["obs"]["lox"] if (x["p"], x["q"]) == (p, q)][0]
+                a, b = np.array(e["attr"], float), np.array(e["rep"], float)
+                tl = TOL * size[i] ** 2 * max(p, q) / min(p, q)
+                run.evaluations += 1
+                if not (hc.proj_close(pair[i, 0], a, tl) and hc.proj_close(pair[i, 1], b, tl) and hc.proj_close(fp[i], a, tl)
+                        and (np.abs(nnorm(pair[i])) <= tl).all()):
+                    nbad += 1
+                    if nbad <= 3:
+                        run.violation(key + ":" + ";".join(hists[i]), "composite.loxodromic_pair",
+                                      dict(n=n, conjugator_word=list(hists[i]), member=i, pair=pair[i].tolist(), fixed_point=fp[i].tolist(),
+                                           spec=[a.tolist(), b.tolist()]))
+        except Exception as e:
+            run.violation(key, "composite.raised", dict(n=n, error="%s: %s" % (type(e).__name__, e)))
+
+
+def walk_fix(run, n, r, pool, label, composite_of_all=False):
     H = hc.H()
     obs = {key_of(o): o for o in parse_lines(r.stdout, "OBS ")}
     tg = parse_lines(r.stdout, "TARGETS ")
@@ -576,6 +612,9 @@ def walk_fix(run, n, r, pool, label):
         for sub, clause, detail in viol:
             run.violation("fix:n=%d:%s:%s" % (n, ";".join(h2), sub), clause,
                           dict(n=n, conjugator_word=list(h2), target=sub, observed=detail, spec_state=dict(g=t["obs"]["g"], origin=t["obs"]["origin"])))
+    if composite_of_all:
+        lib_targets(n, targets)
+        big_composite(run, n, tasks, hists, label)
     run.nontrivial_count += len(tasks)
     run.extra.setdefault("fix_states", {})["n=%d,%s" % (n, label)] = dict(states_checked=len(tasks), skipped_untame=skipped)
     if tasks:
@@ -897,6 +936,10 @@ def run(run, replay=None):
         "far conjugators: a translation of length ln 20, ln 55, ln 148, ln 403 (3..6; quick n >= 3: ln 20 and ln 403) along the first "
         "axis after at most one origin-fixing letter, optionally followed by a quarter turn or a coordinate swap; for these only "
         "the loxodromic conjugates (incl. -M and the composite history) are specified; tolerance 1e-9 * |g|^2 * lambda as elsewhere",
+        "loxodromic-word machine (n = 3, 4; thorough also n = 2 and all six lambdas): ALL words of length <= 3 over nine letters "
+        "(4 reflections, a rotation, translations ln 2 and ln 3, the coordinate cycle, a rotation of the last two coordinates) with at "
+        "most one far translation ln 20 anywhere: ~820 non-normal conjugators per dimension, each with every lambda, as unit "
+        "objects, as -M, in the composite history, and all of them together as one composite G @ L @ G.inv()",
         "stacks handed to from_reflection: every ordered pair of kinds {R, E, L, P, I} of derived isometries of a state and the "
         "triples RRR, RkR, kRk: accepted iff every member is a reflection (then each returned wall is the member's wall); the same "
         "for stacks of Coxeter words (stacked matrices and rep.isometries)",
@@ -923,11 +966,13 @@ def run(run, replay=None):
     if quick:
         planA = [(2, 2, True), (3, 2, False), (4, 2, False)]
         planB = {2: (3, 2), 3: (2, 1), 4: (1, 1)}
+        planC = [(3, 3, False), (4, 3, False)]
         conj_limit = {2: 200, 3: 0, 4: 0}
         wA, wB = 4, 2
     else:
         planA = [(2, 3, True), (3, 3, True), (4, 3, False), (4, 2, True)]
         planB = {2: (5, 2), 3: (3, 2), 4: (2, 2)}
+        planC = [(2, 3, True), (3, 3, True), (4, 3, True)]
         conj_limit = {2: 4000, 3: 6000, 4: 4000}
         wA, wB = 5, 3
     jobs = {}
@@ -946,6 +991,11 @@ def run(run, replay=None):
                          invariants=["FixLaws", "FarLaws", "FormPreserved", "Normalised", "ObsFix"], view="ViewFix", action_constraints=["EmitFix"])
             jobs[("A", n, L, rich)] = ex.submit(run.tlc, "hyp/HypFix.tla", c, name="HypFix_fix_n%d_len%d%s" % (n, L, "_rich" if rich else ""),
                                                 workers=min(wA, core.NCPU), timeout=1500)
+        for n, L, rich in planC:
+            c = core.cfg(constants=dict(N=n, MaxLen=L, WB=1, Rich=rich), init="InitFix".replace("Fix", "Lox"), next_="NextLox",
+                         invariants=["LoxWordLaws", "FormPreserved", "Normalised", "ObsFix"], view="ViewFix", action_constraints=["EmitFix"])
+            jobs[("C", n, L, rich)] = ex.submit(run.tlc, "hyp/HypFix.tla", c, name="HypFix_lox_n%d_len%d%s" % (n, L, "_rich" if rich else ""),
+                                                workers=min(wB, core.NCPU), timeout=1500)
         for n in planB:
             res[("B", n)] = jobs[("B", n)].result()
             t1 = time.time()
@@ -955,6 +1005,11 @@ def run(run, replay=None):
             res[("A", n, L, rich)] = jobs[("A", n, L, rich)].result()
             t1 = time.time()
             walk_fix(run, n, res[("A", n, L, rich)], pool, "len<=%d%s" % (L, ",rich" if rich else ""))
+            t_rep += time.time() - t1
+        for n, L, rich in planC:
+            res[("C", n, L, rich)] = jobs[("C", n, L, rich)].result()
+            t1 = time.time()
+            walk_fix(run, n, res[("C", n, L, rich)], pool, "loxwords,len<=%d%s" % (L, ",rich" if rich else ""), composite_of_all=True)
             t_rep += time.time() - t1
     t_tlc = max(r.wall for r in res.values())
     t1 = time.time()
